@@ -9,7 +9,7 @@ import math
 import struct
 import sys
 
-from .. import core, families
+from .. import core, families, routes as RT
 from ..util import CLASSES, obs
 
 PROPERTY = 'C02'
@@ -187,7 +187,21 @@ def shards(tier, seed):
     return out
 
 
+_CTX = None
+READ_VIEW_ROUTES = ('file_len', 'file_off3_len', 'bytes_off3', 'bytesio', 'stepslice', 'bitarray_le')
+
+
 def run_shard(shard, acc):
+    global _CTX
+    _CTX = RT.Ctx()
+    try:
+        _run_shard(shard, acc)
+    finally:
+        _CTX.close()
+        _CTX = None
+
+
+def _run_shard(shard, acc):
     bs = core.import_bitstring()
     q = acc.tier == 'quick'
     with core.watchdog(1500):
@@ -284,8 +298,15 @@ def one_value(bs, acc, sp, n, v, full):
     v = sp.dec(exp)
     vs = sp.vsrc(v)
     nan = isinstance(v, float) and v != v
-    for ci, cls in enumerate(CLASSES if full else (CLASSES[n % 4],)):
-        o = getattr(bs, cls)(bin=exp)
+    objs = [(cls, getattr(bs, cls)(bin=exp), f"bitstring.{cls}(bin={exp!r})") for cls in (CLASSES if full else (CLASSES[n % 4],))]
+    if full and n <= 72:
+        # the same bits as a window onto a longer source or a derived object (reading must not depend on where the bits live)
+        for ri, r in enumerate(READ_VIEW_ROUTES):
+            cls = CLASSES[(n + ri) % 4]
+            o = RT.build(bs, r, cls, exp, _CTX)
+            if o is not None:
+                objs.append((cls, o, RT.source(r, cls, exp)))
+    for cls, o, osrc in objs:
         for dn in names:
             for rname, fn, src in READ:
                 if rname in ('prop-sized', 'array') and n == 0:
@@ -296,7 +317,7 @@ def one_value(bs, acc, sp, n, v, full):
                 acc.step('read', 1, nontrivial=1, ok=1)
                 if not (got[0] == 'ok' and veq(got[1], v)):
                     acc.violation('read', 'value' if got[0] == 'ok' else 'exc', dict(dtype=dn, n=n, value=str(fkey(v))[:60], route=rname, cls=cls, group=f'{rname}|{sp.kind}'),
-                                  '\n'.join(["import bitstring", "nan, inf = float('nan'), float('inf')", f"o = bitstring.{cls}(bin={exp!r})",
+                                  '\n'.join([RT.SNIPPET_PRELUDE, "nan, inf = float('nan'), float('inf')", f"o = {osrc}",
                                              f"r = {src.format(dn=dn, n=n)}", f"assert (r != r and {nan}) or (type(r) is type({vs}) and r == {vs} and repr(r) == repr({vs})), r"]), fkey(v), got)
     acc.outcome((sp.name, n, exp[:24], len(exp)))
     if len(acc.samples) < 2 and full:
